@@ -34,13 +34,22 @@ type Semaphore struct {
 	sem          *semaphore.Weighted
 	lock         sync.Mutex
 	realCapacity int64
+
+	// appliedCapacity is the capacity 'sem' currently enforces, it is only
+	// touched by the one adjustment goroutine that is allowed to run.
+	appliedCapacity int64
+	// cancelAdjust aborts the pending adjustment (a shrink waiting for
+	// tokens), adjustDone is closed when that adjustment has finished.
+	cancelAdjust context.CancelFunc
+	adjustDone   chan struct{}
 }
 
 // NewSem new a Semaphore
 func NewSem(n uint32) *Semaphore {
 	s := &Semaphore{
-		sem:          semaphore.NewWeighted(maxCapacity),
-		realCapacity: int64(n),
+		sem:             semaphore.NewWeighted(maxCapacity),
+		realCapacity:    int64(n),
+		appliedCapacity: int64(n),
 	}
 
 	s.sem.Acquire(context.Background(), maxCapacity-s.realCapacity)
@@ -77,18 +86,35 @@ func (s *Semaphore) SetMaxCount(n int64) (done chan struct{}) {
 		n = maxCapacity
 	}
 
+	// Adjustments are applied one after another, each relative to the capacity
+	// that is really in force: a newer call first aborts a shrink that is still
+	// waiting for tokens. Otherwise a grow issued while a shrink is pending
+	// would release its tokens on top of the not yet reduced capacity, and more
+	// than any configured count could be acquired.
+	ctx, cancel := context.WithCancel(context.Background())
 	s.lock.Lock()
-	old := s.realCapacity
 	s.realCapacity = n
+	prevCancel, prevDone := s.cancelAdjust, s.adjustDone
+	s.cancelAdjust, s.adjustDone = cancel, done
 	s.lock.Unlock()
 
 	go func() {
-		if n > old {
-			s.sem.Release(n - old)
-		} else if n < old {
-			s.sem.Acquire(context.Background(), old-n)
+		defer close(done)
+		defer cancel()
+		if prevCancel != nil {
+			prevCancel()
+			<-prevDone
 		}
-		close(done)
+		if old := s.appliedCapacity; n > old {
+			s.sem.Release(n - old)
+			s.appliedCapacity = n
+		} else if n < old {
+			// Acquire takes all or nothing, so an aborted shrink leaves
+			// appliedCapacity as it is.
+			if s.sem.Acquire(ctx, old-n) == nil {
+				s.appliedCapacity = n
+			}
+		}
 	}()
 
 	return
